@@ -211,6 +211,10 @@ namespace bxdecay0 {
                                                double cone_aperture2_angle_,
                                                bool error_on_missing_particle_)
   {
+    if (std::isnan(cone_aperture_angle_) or std::isnan(cone_axis_x_) or std::isnan(cone_axis_y_) or std::isnan(cone_axis_z_)) {
+      // NaN passes every range test below and would turn all momenta of the event into NaN
+      throw std::logic_error("bxdecay0::momentum_direction_lock_event_op::_set_: Cone axis or angle is not a number!");
+    }
     if (cone_aperture_angle_ < 0.0) {
       throw std::logic_error("bxdecay0::momentum_direction_lock_event_op::_set_: Invalid negative cone angle!");      
     }
